@@ -38,7 +38,7 @@ META = {
     "rule": "60-300 cycles of literal rows; per-run request density 3-50 %, queue-ready density 15-100 %, "
             "fields re-drawn every cycle; ~15 % of runs have an always-ready queue and no busy requests",
 }
-TIERS = {"quick": {"runs": 8000, "wall": 70}, "thorough": {"runs": 120000, "wall": 900}}
+TIERS = {"quick": {"runs": 24000, "wall": 70}, "thorough": {"runs": 120000, "wall": 900}}
 
 KIND_NAMES = {1: "ack", 2: "stall", 3: "nrdy", 4: "erdy"}
 KIND_SUBTYPE = {1: TP_ACK, 2: TP_STALL, 3: TP_NRDY, 4: TP_ERDY}
